@@ -132,6 +132,7 @@ func (d *Decorator) DecorateNode(n ast.Node) (dst.Node, error) {
 		fd.file = f
 	}
 	if pkg, ok := n.(*ast.Package); ok {
+		fd.pkg = pkg
 		// The comments and line breaks of a file belong to the nodes of that file, so the files
 		// of a package are fragmented and linked one at a time.
 		for _, file := range pkg.Files {
@@ -181,7 +182,8 @@ func (pd *Decorator) newFileDecorator() *fileDecorator {
 
 type fileDecorator struct {
 	*Decorator
-	file          *ast.File // file we're decorating in for import name resolution - can be nil if we're just decorating an isolated node
+	file          *ast.File    // file we're decorating in for import name resolution - can be nil if we're just decorating an isolated node
+	pkg           *ast.Package // package we're decorating (nil unless the root node is a package): import names are resolved in the file that contains the identifier
 	cursor        int
 	fragments     []fragment
 	startIndents  map[ast.Node]int
@@ -338,7 +340,19 @@ func (f *fileDecorator) resolvePath(force bool, parent ast.Node, parentName, par
 		}
 	}
 
-	path, err := f.Resolver.ResolveIdent(f.file, parent, parentField, id)
+	file := f.file
+	if file == nil && f.pkg != nil {
+		// decorating a package: the file is the one that contains the identifier
+		tf := f.Fset.File(id.Pos())
+		for _, pf := range f.pkg.Files {
+			if tf != nil && f.Fset.File(pf.Package) == tf {
+				file = pf
+				break
+			}
+		}
+	}
+
+	path, err := f.Resolver.ResolveIdent(file, parent, parentField, id)
 	if err != nil {
 		return "", err
 	}
